@@ -479,6 +479,26 @@ fn configs(tier: Tier) -> Vec<Cfg> {
             }
         }
     }
+    // larger networks: the verdict comes from the lookup's own trace, so it is exact at any size
+    let bigs: &[usize] = if tier.is_quick() { &[60] } else { &[60, 150, 300] };
+    let nb = BEHS.len() - 1;
+    for &m in bigs {
+        for knowledge in 0..3 {
+            for kind in 0..5 {
+                v.push(Cfg { m, knowledge, kind, vary: vec![] });
+                if !tier.is_quick() && kind < 4 {
+                    for rank in [1usize, 20, 21] {
+                        for b in 0..nb {
+                            if BEHS[b] == Beh::ValueSoleWitness {
+                                continue;
+                            }
+                            v.push(Cfg { m, knowledge, kind, vary: vec![(rank, b)] });
+                        }
+                    }
+                }
+            }
+        }
+    }
     v
 }
 
@@ -540,7 +560,7 @@ fn run(tier: Tier, shard: usize, nshards: usize, _seed: u64) -> Partial {
         // every single latency deviation (answers overtaking each other) on the base
         // configurations (no varying endpoints) and, in the thorough tier, on the
         // single-variation ones at ranks 20/21
-        let base: Vec<&Cfg> = cfgs.iter().filter(|c| c.vary.is_empty() || (!tier.is_quick() && c.vary.len() == 1 && (c.vary[0].0 == 20 || c.vary[0].0 == 21))).collect();
+        let base: Vec<&Cfg> = cfgs.iter().filter(|c| c.m <= 60).filter(|c| c.vary.is_empty() || (!tier.is_quick() && c.vary.len() == 1 && (c.vary[0].0 == 20 || c.vary[0].0 == 21))).collect();
         for (i, c) in base.iter().enumerate() {
             if i % nshards != shard {
                 continue;
